@@ -12,6 +12,8 @@ def dlt (pid : Int) : Rat := if pid = r then c else 0
 
 @[simp] theorem shiftRank_pid (e : MEv) : (shiftRank r c e).pid = e.pid := by
   unfold shiftRank; split <;> rfl
+@[simp] theorem shiftRank_uid (e : MEv) : (shiftRank r c e).uid = e.uid := by
+  unfold shiftRank; split <;> rfl
 @[simp] theorem shiftRank_ph (e : MEv) : (shiftRank r c e).ph = e.ph := by
   unfold shiftRank; split <;> rfl
 @[simp] theorem shiftRank_name (e : MEv) : (shiftRank r c e).name = e.name := by
@@ -415,6 +417,151 @@ theorem calibrate_shift (evs : List MEv) :
           have : ((0 : Nat) : Int) = 0 := rfl
           rw [this]
           grind
+
+/-! ### placing the events -/
+
+@[simp] theorem eraseDev_ts (e : MEv) : (eraseDev e).ts = e.ts := rfl
+
+theorem eraseDev_shiftRank (e : MEv) : eraseDev (shiftRank r c e) = eraseDev e := by
+  unfold shiftRank
+  split
+  · unfold eraseDev
+    cases e.args <;> rfl
+  · rfl
+
+theorem pyIdx_rel {c₁ c₂ : Calib} (hrel : CalibRel r c c₁ c₂) (pid : Int) (hp : 0 ≤ pid) :
+    (pyIdx c₁.shifts pid = none ∧ pyIdx c₂.shifts pid = none) ∨
+    ∃ s₁ s₂, pyIdx c₁.shifts pid = some s₁ ∧ pyIdx c₂.shifts pid = some s₂ ∧
+      s₂ + c₂.ref + dlt r c pid = s₁ + c₁.ref := by
+  unfold pyIdx
+  simp only [hp, if_true]
+  cases h1 : c₁.shifts[pid.toNat]? with
+  | none =>
+    left
+    refine ⟨rfl, ?_⟩
+    rw [List.getElem?_eq_none_iff] at h1 ⊢
+    rw [hrel.1]; exact h1
+  | some s₁ =>
+    right
+    obtain ⟨s₂, h2, h3⟩ := hrel.2 pid.toNat s₁ h1
+    refine ⟨s₁, s₂, rfl, h2, ?_⟩
+    rw [Int.toNat_of_nonneg hp] at h3
+    exact h3
+
+theorem alter_shift {c₁ c₂ : Calib} (hrel : CalibRel r c c₁ c₂) (e : MEv) (hpid : isDev e = true → 0 ≤ e.pid) :
+    (alter c₂ (shiftRank r c e)).map eraseDev = (alter c₁ e).map eraseDev := by
+  unfold alter
+  simp only [shiftRank_args, shiftRank_pid, shiftRank_name]
+  cases ha : e.args with
+  | none => rfl
+  | some a =>
+    simp only [Option.map_some]
+    by_cases h5 : a.hasTS5 = true
+    · simp only [h5, if_true]
+      have hp : 0 ≤ e.pid := hpid (by simp [isDev, ha, h5])
+      cases hl : a.tsDev with
+      | none => rfl
+      | some l =>
+        simp only [Option.map_some]
+        rcases pyIdx_rel r c hrel e.pid hp with ⟨h1, h2⟩ | ⟨s₁, s₂, h1, h2, h3⟩
+        · simp only [h1, h2]
+        · simp only [h1, h2]
+          have hall : List.map (fun x => x + c₂.ref) (List.map (fun x => x + s₂) (List.map (fun x => x + dlt r c e.pid) l)) =
+              List.map (fun x => x + c₁.ref) (List.map (fun x => x + s₁) l) := by
+            simp only [List.map_map]
+            apply List.map_congr_left
+            intro x _
+            simp only [Function.comp]
+            grind
+          rw [hall]
+          cases (List.map (fun x => x + c₁.ref) (List.map (fun x => x + s₁) l))[opId e.name]? with
+          | none => rfl
+          | some t =>
+            simp [Except.map, eraseDev]
+    · have h5' : a.hasTS5 = false := by simpa using h5
+      simp only [h5', Bool.false_eq_true, if_false, Except.map]
+      rw [eraseDev_shiftRank]
+
+theorem mapM_alter_shift {c₁ c₂ : Calib} (hrel : CalibRel r c c₁ c₂) :
+    ∀ (evs : List MEv), (∀ e ∈ evs, isDev e = true → 0 ≤ e.pid) →
+      ((evs.map (shiftRank r c)).mapM (alter c₂)).map (fun l => l.map eraseDev) =
+        (evs.mapM (alter c₁)).map (fun l => l.map eraseDev)
+  | [], _ => rfl
+  | e :: es, h => by
+    have h1 := alter_shift r c hrel e (h e (by simp))
+    have ih := mapM_alter_shift hrel es (fun x hx => h x (by simp [hx]))
+    rw [List.map_cons, List.mapM_cons, List.mapM_cons]
+    cases ha : alter c₂ (shiftRank r c e) with
+    | error a =>
+      cases hb : alter c₁ e with
+      | error b => simp [ha, hb, Except.map] at h1; simp [bind, Except.bind, Except.map, h1]
+      | ok y => simp [ha, hb, Except.map] at h1
+    | ok x =>
+      cases hb : alter c₁ e with
+      | error b => simp [ha, hb, Except.map] at h1
+      | ok y =>
+        simp only [ha, hb, Except.map, Except.ok.injEq] at h1
+        cases hc : (es.map (shiftRank r c)).mapM (alter c₂) with
+        | error a =>
+          cases hd : es.mapM (alter c₁) with
+          | error b => simp [hc, hd, Except.map] at ih; simp [bind, Except.bind, Except.map, ih]
+          | ok ys => simp [hc, hd, Except.map] at ih
+        | ok xs =>
+          cases hd : es.mapM (alter c₁) with
+          | error b => simp [hc, hd, Except.map] at ih
+          | ok ys =>
+            simp only [hc, hd, Except.map, Except.ok.injEq] at ih
+            simp [bind, Except.bind, Except.map, pure, Except.pure, h1, ih]
+
+/-- **Epoch clause on the model.**  Adding a constant to every device counter of one rank changes
+nothing the stage emits except the scratch `ts_dev` copies: same error class, or the same events in
+the same order with the same `ts`, `dur`, `ts_all`. -/
+theorem mpSync_shift (evs : List MEv) (hpid : ∀ e ∈ evs, isDev e = true → 0 ≤ e.pid) :
+    (mpSync (evs.map (shiftRank r c))).map (fun l => l.map eraseDev) =
+      (mpSync evs).map (fun l => l.map eraseDev) := by
+  have hcal := calibrate_shift r c evs
+  have hsort : ∀ l₁ l₂ : List MEv, l₁.map eraseDev = l₂.map eraseDev →
+      (sortOut l₁.reverse).map eraseDev = (sortOut l₂.reverse).map eraseDev := by
+    intro l₁ l₂ h
+    rw [← sortOut_map eraseDev eraseDev_ts, ← sortOut_map eraseDev eraseDev_ts, List.map_reverse, List.map_reverse, h]
+  unfold mpSync mpSyncG
+  simp only [acts_shift]
+  cases hact : acts evs with
+  | false =>
+    simp only [Bool.false_eq_true, if_false, bind, Except.bind, pure, Except.pure, Except.map, Except.ok.injEq]
+    apply hsort
+    simp [List.map_map, Function.comp_def, eraseDev_shiftRank]
+  | true =>
+    simp only [if_true]
+    change (match calibrate evs, calibrate (evs.map (shiftRank r c)) with
+      | .error a, .error b => a = b
+      | .ok c₁, .ok c₂ => CalibRel r c c₁ c₂
+      | _, _ => False) at hcal
+    unfold calibrate at hcal
+    cases h1 : calibrateG refOffset evs with
+    | error a =>
+      cases h2 : calibrateG refOffset (evs.map (shiftRank r c)) with
+      | error b => simp [h1, h2] at hcal; simp [bind, Except.bind, Except.map, hcal]
+      | ok c₂ => simp [h1, h2] at hcal
+    | ok c₁ =>
+      cases h2 : calibrateG refOffset (evs.map (shiftRank r c)) with
+      | error b => simp [h1, h2] at hcal
+      | ok c₂ =>
+        simp only [h1, h2] at hcal
+        have hm := mapM_alter_shift r c hcal evs hpid
+        simp only [bind, Except.bind]
+        cases hc : (evs.map (shiftRank r c)).mapM (alter c₂) with
+        | error a =>
+          cases hd : evs.mapM (alter c₁) with
+          | error b => simp [hc, hd, Except.map] at hm; simp [Except.map, hm]
+          | ok ys => simp [hc, hd, Except.map] at hm
+        | ok xs =>
+          cases hd : evs.mapM (alter c₁) with
+          | error b => simp [hc, hd, Except.map] at hm
+          | ok ys =>
+            simp only [hc, hd, Except.map, Except.ok.injEq] at hm
+            simp only [pure, Except.pure, Except.map, Except.ok.injEq]
+            exact hsort _ _ hm
 
 end MpSync
 end AiuVerif
